@@ -18,7 +18,7 @@ rsync -a --delete --exclude target /verif/harness/ $h/harness/
 sed -i "s#/repo/#$wt/#g" $h/harness/Cargo.toml
 cp /verif/known_findings.json /verif/properties.jsonl $h/
 if [ "$1" = "--patch" ]; then
-    git -C $wt apply "$2" || { echo "PATCH DOES NOT APPLY"; exit 3; }
+    git -C $wt apply "$(realpath "$2")" || { echo "PATCH DOES NOT APPLY"; exit 3; }
     shift 2
 else
     file=$1; old=$2; new=$3; shift 3
